@@ -104,7 +104,7 @@ def classify_known(pid, lines, rej):
 
 
 def conform(v, wd, name, c, schedules, storage="mem", valclass="ascii", invs=INVS,
-            max_failures=3, extra_steps=None, flush=2, sqlite_dir=None, header=None):
+            max_failures=3, extra_steps=None, flush=2, sqlite_dir=None, header=None, obs=True):
     """Replay schedules on the real code and validate the trace; account the result in v."""
     if not schedules:
         v.tool_errors.append(f"{name}: TLC produced no schedules")
@@ -150,8 +150,29 @@ def conform(v, wd, name, c, schedules, storage="mem", valclass="ascii", invs=INV
                    "constants": {k2: sorted(v2) if isinstance(v2, (set, frozenset)) else v2
                                  for k2, v2 in trace_constants(c).items()}}
         known = classify_known(v.pid, lines, r["event"] if isinstance(r["event"], dict) else None)
+        drift = False
+        if not known and obs and not r["violated"]:
+            # property level (DESIGN.md 4.5): the same behaviour judged only by what the
+            # properties state; accepted there = the implementation changed shape, not behaviour
+            one = os.path.join(wd, f"{name}.b{bid}.ndjson")
+            with open(one, "w") as f:
+                f.writelines(lines)
+            ocfg = write_cfg(os.path.join(wd, name + ".obs.cfg"), trace_constants(c), spec="OSpec",
+                             invariants=invs, postcondition="Accepted")
+            ro = tlc_trace(wd, name + ".obs", "ObsSync.tla", ocfg, one)
+            drift = ro["accepted"]
+            payload["property_level"] = {"accepted": ro["accepted"], "rejected_event": ro["event"],
+                                         "invariant": ro["violated"]}
+            if not drift and (ro["timed_out"] or (ro["rejected_at"] is None and not ro["violated"])):
+                v.tool_errors.append(f"{name}: property-level validation did not finish "
+                                     f"(see {ro['out']})")
         if known:
             v.known.append(f"{known['id']}: {known['what']} (behaviour {bid} of {name})")
+        elif drift:
+            v.drift.append(f"{name} behaviour {bid}: {json.dumps(r['event'])[:200]} is not the step "
+                           f"TCSync takes, but the behaviour satisfies the property-level "
+                           f"specification ObsSync")
+            write_replay(v.pid, f"{name}-b{bid}-drift", payload)
         else:
             p = write_replay(v.pid, f"{name}-b{bid}", payload)
             v.violations.append((what, p))
